@@ -877,7 +877,7 @@ def run(ctx):
     quick = ctx.tier == 'quick'
     widen = bool(ctx.broken)
     # quick: use what is left of ~82 s after extraction / build / audit (between 25 and 50 s of scheduling)
-    budget_total = (max(25.0, min(50.0, 82.0 - (time.time() - ctx.t0))) if quick else 420.0) * (1.5 if widen else 1.0)
+    budget_total = (max(25.0, min(62.0, 82.0 - (time.time() - ctx.t0))) if quick else 420.0) * (1.5 if widen else 1.0)
     ctx.deadline = time.time() + budget_total
     programs = list(QUICK_PROGRAMS) + ([] if quick else list(THOROUGH_PROGRAMS))
     if not quick:
@@ -891,14 +891,21 @@ def run(ctx):
         bad = sorted(k for k, v in wl.items() if v != '1')
         if bad and not any('C02' in b or 'Props' in b for b in ctx.broken):
             ctx.broken.append('WellLocked no longer holds of the extracted skeleton(s): %s' % ', '.join(bad))
-    jobs = [(b, w, p, bd, m) for (w, p, bd, m) in programs for b in BACKENDS]
+    # programs that never touch a value (registry / Info / Enum / target-info operations only) do not depend on the value
+    # back-end: they run once
+    reg_only = {'reg', 'unreg', 'rcol', 'rrcol', 'rcx', 'rct', 'stn', 'sti', 'gti', 'regy', 'info', 'state', 'col'}
+
+    def backends_of(w, p):
+        kinds = {op.split(':')[0] for t in p.split('|') for op in t.split(',')}
+        return ('mutex',) if kinds <= reg_only and not (set(w) & set('pqsh2')) else BACKENDS
+    jobs = [(b, w, p, bd, m) for (w, p, bd, m) in programs for b in backends_of(w, p)]
     t_model = time.time()
     models.prefetch([(b, w, p) for (b, w, p, bd, m) in jobs if m])
     ctx.extra['model_enumeration_s'] = round(time.time() - t_model, 2)
     ctx.deadline = time.time() + budget_total
     stats = {}
     searches = [ProgramSearch(ctx, models, b, w, p, bd, m, stats) for (b, w, p, bd, m) in jobs]
-    nrandom = (4 if quick else 40) * (2 if widen else 1)
+    nrandom = (3 if quick else 40) * (2 if widen else 1)
     # phase 1: every schedule with <= 1 pre-emption, for every program (an equal slice of 70% of the budget each, unused time
     # rolls over); phase 2: random schedules; phase 3: the rest of the budget goes round-robin to the unfinished searches
     # (first the ones whose bound-1 level is incomplete, then the deeper levels)
